@@ -273,6 +273,20 @@ def run_lists(spec, rec, lib):
 def run_systematic(spec, rec, lib):
     """every hostile character at every position class of every boundary length"""
     rng = random.Random(spec["seed"])
+    # strings without any cased character / without any digit are perfectly good hex
+    for n in (2, 40, 64, 128):
+        for alphabet in ("0123456789", "abcdef", "0", "f", "09", "af"):
+            s0 = "".join(rng.choice(alphabet) for _ in range(n))
+            for dotted, oracle, kind in STR_FUNCS:
+                judge(dotted, oracle, kind, s0, rec, lib)
+            for fld, good in (("see_also", {"other_headers": "04", "signature": "ab" * 64}),):
+                if n == 40:
+                    for dotted, oracle, kind in ENTRY_FUNCS:
+                        judge(dotted, oracle, kind, dict(good, see_also=s0), rec, lib)
+            if n == 128:
+                for dotted, oracle, kind in ENTRY_FUNCS:
+                    judge(dotted, oracle, kind, {"signature": s0}, rec, lib)
+                    judge(dotted, oracle, kind, {"signature": s0, "other_headers": "".join(rng.choice(alphabet) for _ in range(8))}, rec, lib)
     for n in (40, 64, 128, 2, 4):
         base = "".join(rng.choice("0123456789abcdef") for _ in range(n))
         for ch in HOSTILE + [chr(c) for c in range(0, 0x30)] + [chr(c) for c in range(0x3a, 0x61)] + [chr(c) for c in range(0x67, 0xA1)]:
